@@ -41,42 +41,43 @@ type LetDef struct {
 type Param struct{ Name, Type string }
 
 type FuncContract struct {
-	Key         string // pkgpath|Recv.Name  or pkgpath|Name
-	PkgName     string
-	Recv        string // receiver type name without * and package
-	RecvPtr     bool
-	Name        string
-	Params      []Param // including receiver first (if any)
-	Results     []Param
-	Props       []string
-	Requires    []*Clause
-	ObjInvs     []*Clause // object invariants over private state: assumed at entry (also at call sites, unchecked there)
-	Defines     []*Clause // definitional axioms of spec functions local to this contract (assumed at entry)
-	Ensures     []*Clause
-	Lets        []LetDef
-	Modifies    []Expr
-	ModSrc      []string
-	ModAll      bool
-	Loops       map[int]*LoopSpec
-	Branches    map[string][]*Clause
-	Extern      bool
-	Iface       bool
-	Pure        bool
-	Logged      bool
-	Trusted     bool // body not verified (assumed), listed in evidence
-	NoInline    bool
-	Nonblock    bool
-	Fresh       bool // result is freshly allocated
-	File        string
-	Line        int
-	Header      string
-	MayPanic    bool
-	CallsArg    bool // the function's whole effect is to call its last argument (a func()) once
-	Merge       bool // verify with join merging even though the function is small (many returns x many clauses)
-	Bounded     []BoundedDef
-	RecvAssumes map[string][]*Clause
-	GhostSets   []GhostSet
-	NoSafety    string // reason why panic-freedom obligations are not generated for this function
+	Key          string // pkgpath|Recv.Name  or pkgpath|Name
+	PkgName      string
+	Recv         string // receiver type name without * and package
+	RecvPtr      bool
+	Name         string
+	Params       []Param // including receiver first (if any)
+	Results      []Param
+	Props        []string
+	Requires     []*Clause
+	ObjInvs      []*Clause // object invariants over private state: assumed at entry (also at call sites, unchecked there)
+	Defines      []*Clause // definitional axioms of spec functions local to this contract (assumed at entry)
+	Ensures      []*Clause
+	Lets         []LetDef
+	Modifies     []Expr
+	ModSrc       []string
+	ModAll       bool
+	Loops        map[int]*LoopSpec
+	Branches     map[string][]*Clause
+	Extern       bool
+	Iface        bool
+	Pure         bool
+	Logged       bool
+	Trusted      bool // body not verified (assumed), listed in evidence
+	NoInline     bool
+	Nonblock     bool
+	Fresh        bool // result is freshly allocated
+	File         string
+	Line         int
+	Header       string
+	MayPanic     bool
+	CallsArg     bool // the function's whole effect is to call its last argument (a func()) once
+	Merge        bool // verify with join merging even though the function is small (many returns x many clauses)
+	NeverReturns bool // an event loop without exit: no return path is expected (vacuity is guarded by the back-edge canaries)
+	Bounded      []BoundedDef
+	RecvAssumes  map[string][]*Clause
+	GhostSets    []GhostSet
+	NoSafety     string // reason why panic-freedom obligations are not generated for this function
 }
 
 type GhostSet struct {
@@ -550,6 +551,8 @@ func (sp *Specs) LoadFile(path, pkgName string) error {
 			cur.CallsArg = true
 		case "merge_paths":
 			cur.Merge = true
+		case "never_returns":
+			cur.NeverReturns = true
 		case "assume_pure":
 			sp.Pure = append(sp.Pure, splitList(rest)...)
 			cur = nil
